@@ -1,14 +1,26 @@
 (* C07 — Streaming text reader is independent of read chunking and buffer size.
-   Statements only.  Model: BufWin (buffer.rs) and TextReader (text/reader.rs).
-   Proved so far: the buffer never loses / reorders data under any schedule, end-of-input is
-   reported only when the stream has ended (a full buffer is BufferFull), and every scan that
-   survives a refill resumes correctly for any continuation of the data (the (carry_over,
-   offset) pairs handed to next_opt_refill).  NOT yet proved as one theorem:
-     stream_eq_slice : forall input sched cap, fits cap input ->
-                       run_stream cap sched input = run_slice input
-   which is carried by the correspondence + oracle streams of props/C07.py. *)
-From JV Require Import Bytes Tables U64Swar BufWin TextTok TextReader.
-From JV.proofs Require Import BufWinProofs TextReaderProofs.
+   Statements only.  Model: BufWin (buffer.rs) and TextReader (text/reader.rs); specification:
+   TextRef (buffer-free reference tokenizer [ref_tokens], buffer requirement [need]).
+   Proved:
+     * the buffer never loses / reorders data under any schedule, end-of-input is reported only
+       when the stream has ended (a full buffer is BufferFull);
+     * every scan that survives a refill resumes correctly for any continuation of the data;
+     * C07_fast_paths_unobservable: next_opt (SWAR whitespace skip, unrolled boundary scan, SWAR
+       quote search) = next_opt_fallback, up to one consumed space after an unquoted scalar;
+     * C07_slice_eq_tok: the zero-copy reader produces the reference token list, terminal event
+       and final position;
+     * C07_stream_eq_tok / C07_stream_eq_slice: for ALL schedules without I/O failures (any
+       number of reads of any sizes, including 1-byte reads) and ALL buffer sizes >= need input,
+       the streaming reader produces the same token list, terminal event and final position as
+       the zero-copy reader;
+     * C07_stream_full: for every non-empty buffer smaller than need input the streaming reader
+       returns a proper prefix of the slice reader's tokens followed by BufferFull: never a
+       clean end, never a split or dropped token.  (Together: for every buffer size > 0 exactly
+       one of the two cases applies.  cap = 0 is the model's encoding of the bufferless slice
+       window and is not a streaming configuration.)
+   Hypotheses: bytes are < 256 (wf_bytes), the Read does not fail (no_fail; faults are C20). *)
+From JV Require Import Bytes Tables U64Swar BufWin TextTok TextReader TextRef.
+From JV.proofs Require Import BufWinProofs TextReaderProofs TextFastProofs TextReaderMainProofs TextReaderFullProofs.
 Open Scope nat_scope.
 
 Theorem C07_fill_buf_preserves : forall input b r,
@@ -58,3 +70,71 @@ Print Assumptions C07_fallback_quote_resume.
 (* non-vacuity: the escape-split situations of findings J and K are instances *)
 Example C07_J_instance : qscan [97; 92]%N 0 = QEndEsc 1 /\ rq_scan ([97; 92] ++ [34; 98; 34])%N 0 = inl 4.
 Proof. split; reflexivity. Qed.
+
+(* ---------- fast paths ---------- *)
+Theorem C07_fast_paths_unobservable : forall fuel r,
+  wf_bytes (win (rbw r)) ->
+  next_opt fuel r = fallback fuel r \/
+  exists t i,
+    nth_error (win (rbw r)) i = Some 32%N /\
+    fallback fuel r = emit r t i /\ next_opt fuel r = emit r t (S i).
+Proof. exact next_opt_fast_eq_fallback. Qed.
+Print Assumptions C07_fast_paths_unobservable.
+
+(* ---------- slice reader = reference tokenizer ---------- *)
+Theorem C07_slice_eq_tok : forall input, wf_bytes input ->
+  run_slice input = (tokens_of input, length input - leftover input).
+Proof. exact slice_eq_tok. Qed.
+Print Assumptions C07_slice_eq_tok.
+
+(* ---------- MAIN: streaming reader = reference tokenizer = slice reader ---------- *)
+Theorem C07_stream_eq_tok : forall input sch capv,
+  wf_bytes input -> no_fail sch -> need input <= capv ->
+  run_stream capv sch input = (tokens_of input, length input - leftover input).
+Proof. exact stream_eq_tok. Qed.
+Print Assumptions C07_stream_eq_tok.
+
+Theorem C07_stream_eq_slice : forall input sch capv,
+  wf_bytes input -> no_fail sch -> need input <= capv ->
+  run_stream capv sch input = run_slice input.
+Proof. exact stream_eq_slice. Qed.
+Print Assumptions C07_stream_eq_slice.
+
+(* ---------- a buffer that is too small ---------- *)
+Theorem C07_stream_full : forall input sch capv,
+  wf_bytes input -> no_fail sch -> 0 < capv < need input ->
+  exists pre suf p,
+    run_stream capv sch input = (map OTok pre ++ [OErr E_BufferFull], p) /\
+    fst (run_slice input) = map OTok pre ++ suf /\ suf <> [].
+Proof. exact stream_full. Qed.
+Print Assumptions C07_stream_full.
+
+(* ---------- corollaries ---------- *)
+Theorem C07_schedule_independent : forall input sch1 sch2 cap1 cap2,
+  wf_bytes input -> no_fail sch1 -> no_fail sch2 -> need input <= cap1 -> need input <= cap2 ->
+  run_stream cap1 sch1 input = run_stream cap2 sch2 input.
+Proof. exact schedule_independent. Qed.
+Print Assumptions C07_schedule_independent.
+
+(* the hypothesis of the main theorem is satisfiable for every input: |input| + 1 bytes suffice *)
+Theorem C07_need_le_length : forall input, need input <= S (length input).
+Proof. exact need_le_length. Qed.
+Print Assumptions C07_need_le_length.
+
+Theorem C07_stream_eq_slice_big : forall input sch capv,
+  wf_bytes input -> no_fail sch -> length input < capv -> run_stream capv sch input = run_slice input.
+Proof. exact stream_eq_slice_big. Qed.
+Print Assumptions C07_stream_eq_slice_big.
+
+(* non-vacuity: an input with an escaped quote inside a quoted scalar, a comment, a parameter
+   token and a two-byte operator needs 5 bytes; with one-byte reads and a 5-byte buffer the
+   streaming reader gives the slice result, with a 4-byte buffer it reports BufferFull *)
+Definition C07_ex_input : bytes := [97;98;32;34;120;92;34;121;34;32;35;99;10;64;91;49;93;60;61]%N.
+Example C07_ex_hyps : wf_bytes C07_ex_input /\ no_fail (repeat (Data 1) 30) /\ need C07_ex_input = 5.
+Proof.
+  split; [repeat constructor|]. split; [|reflexivity].
+  intros H. apply repeat_spec in H. discriminate.
+Qed.
+Example C07_ex_run : run_stream 5 (repeat (Data 1) 30) C07_ex_input = run_slice C07_ex_input /\
+                     fst (run_stream 4 (repeat (Data 1) 30) C07_ex_input) = [OTok (RUnq [97;98]%N); OErr E_BufferFull].
+Proof. split; vm_compute; reflexivity. Qed.
